@@ -317,3 +317,92 @@ Definition spec_filter_call (cls m : string) (pos : list pyval) (kw : list (stri
       | Some q => if q_is_map q && negb (scls_has_map c) then None else Some (spec_filter_leaf c q doc)
       end
   end.
+
+Definition q_term (c : scls) (q : dsl) : dslc pyval :=
+  let '(m, pos, kw) := q_call q in DLeaf (scls_name c) m pos kw.
+
+(* ------------------------------------------------------------------ *)
+(* C02: and / or / xor trees                                            *)
+
+Inductive qtree := QLeaf (c : scls) (q : dsl) | QNull | QBin (o : bop) (a b : qtree).
+
+Fixpoint qterm (t : qtree) : dslc pyval :=
+  match t with
+  | QLeaf c q => q_term c q
+  | QNull => DNull
+  | QBin o a b => DBin o (qterm a) (qterm b)
+  end.
+
+Definition q_is_null (t : qtree) : bool := match t with QNull => true | _ => false end.
+
+(* the null condition is the identity of all three operators *)
+Fixpoint qnorm (t : qtree) : qtree :=
+  match t with
+  | QBin o a b =>
+      let a' := qnorm a in
+      let b' := qnorm b in
+      if q_is_null b' then a' else if q_is_null a' then b' else QBin o a' b'
+  | _ => t
+  end.
+
+Fixpoint qleaves (t : qtree) : list (scls * dsl) :=
+  match t with QLeaf c q => [(c, q)] | QNull => [] | QBin _ a b => qleaves a ++ qleaves b end.
+
+Definition q_has_kind (k : dkind) (t : qtree) : bool :=
+  existsb (fun cq => dkind_eqb (scls_kind (fst cq)) k) (qleaves t).
+(* key conditions cannot be combined with index conditions *)
+Definition qmixed (t : qtree) : bool := q_has_kind DKey t && q_has_kind DIndex t.
+
+Definition qtree_ok (t : qtree) : bool :=
+  forallb (fun cq => (negb (q_is_map (snd cq)) || scls_has_map (fst cq))
+                     && match snd cq with
+                        | Q_items_contain items => negb (existsb (fun kv => String.eqb (fst kv) "trial_dict") items)
+                        | _ => true
+                        end) (qleaves t).
+
+Definition bop_sem (o : bop) (x y : bool) : bool :=
+  match o with BoAnd => andb x y | BoOr => orb x y | BoXor => xorb x y end.
+
+(* on a normalised tree *)
+Fixpoint sat_tree (t : qtree) (it : pyval * pyval) : bool :=
+  match t with
+  | QLeaf c q => sat_item c q it
+  | QNull => true
+  | QBin o a b => bop_sem o (sat_tree a it) (sat_tree b it)
+  end.
+
+Definition nonempty_container (doc : pyval) : bool :=
+  match doc with VList (_ :: _) | VDict (_ :: _) => true | _ => false end.
+
+Definition spec_filter_tree (t : qtree) (doc : pyval) : res pyval :=
+  let n := qnorm t in
+  match n with
+  | QLeaf c q => spec_filter_leaf c q doc
+  | QNull => if nonempty_container doc then Ok (spec_obs doc (map (fun _ => true) (doc_items doc))) else Err TypeError
+  | QBin _ _ _ =>
+      if qmixed n then Err TypeError
+      else if nonempty_container doc then Ok (spec_obs doc (map (sat_tree n) (doc_items doc)))
+      else Err TypeError
+  end.
+
+(* oracle entry point for generated trees: parse a DSL term into the typed tree when possible *)
+Fixpoint parse_tree (t : dslc pyval) : option qtree :=
+  match t with
+  | DLeaf cls m pos kw =>
+      match parse_cls cls, parse_call m pos kw with
+      | Some c, Some q => if q_is_map q && negb (scls_has_map c) then None else Some (QLeaf c q)
+      | _, _ => None
+      end
+  | DNull => Some QNull
+  | DBin o a b =>
+      match parse_tree a, parse_tree b with
+      | Some x, Some y => Some (QBin o x y)
+      | _, _ => None
+      end
+  end.
+
+Definition spec_filter_term (t : dslc pyval) (doc : pyval) : option (res pyval) :=
+  match parse_tree t with
+  | Some q => Some (spec_filter_tree q doc)
+  | None => None
+  end.
